@@ -11,11 +11,13 @@ The three regular expressions of the read loop are modelled by small scanners:
 
 * `v1Dot0Delim = "]]>]]>"` (a literal; taken from the generated constant): `isInfix` / `afterFirst`;
 * `v1Dot1Delim = "(?m)^##$"`: a line that is exactly `##` (`match11From` / `after11From`);
-* `messageIDPattern = (?i)(?:message-id="(\d+)")`: `firstId` (left-most occurrence, ASCII case
-  folding, greedy digits, closing quote).
+* `messageIDPattern = (?i)(?:message-id\s*=\s*["'](\d+)["'])`: `firstId` (left-most occurrence,
+  ASCII case folding, optional white space around `=`, either quote character, greedy digits).
 
-Scanner = Go `regexp` on these patterns is a *tested assumption* (the harness diffs them on
-generated strings on every run); the pattern sources are pinned in `Props/C08.lean`.
+Scanner = the Lean regex engine on the regenerated pattern terms is proved in
+`Props/RXNetconf.lean` (message-id: for texts without U+017F); that the engine is Go's `regexp` is
+tested (the harness diffs both on generated strings on every run); the pattern sources are pinned
+in `Props/C08.lean`.
 -/
 namespace Scrapli.Netconf.Store
 open Scrapli
@@ -67,10 +69,10 @@ def afterFirstOpt : Ver → Bytes → Option Bytes
 /-- `patterns.v1DotXDelim.Split(string(b), 2)[1]` (only used when `delimMatch` holds) -/
 def afterFirstDelim (v : Ver) (b : Bytes) : Bytes := (afterFirstOpt v b).getD []
 
-/-- `message-id="` as (lower, upper) byte pairs: the `(?i)` literal part of `messageIDPattern` -/
+/-- `message-id` as (lower, upper) byte pairs: the `(?i)` literal part of `messageIDPattern` -/
 def midPrefix : List (UInt8 × UInt8) :=
   [(109, 77), (101, 69), (115, 83), (115, 83), (97, 65), (103, 71), (101, 69), (45, 45),
-   (105, 73), (100, 68), (61, 61), (34, 34)]
+   (105, 73), (100, 68)]
 
 def dropFold : List (UInt8 × UInt8) → Bytes → Option Bytes
   | [], b => some b
@@ -88,17 +90,40 @@ def maxInt64 : Nat := 9223372036854775807
 def atoiClamp (ds : Bytes) : Nat := min (decVal 0 ds) maxInt64
 
 def QUOTE : UInt8 := 34
+def EQ : UInt8 := 61
+
+/-- Go's Perl class `\s` = `[\t\n\f\r ]` -/
+def isWsB (b : UInt8) : Bool := b == 9 || b == 10 || b == 12 || b == 13 || b == 32
+
+/-- `["']` -/
+def isQuoteB (b : UInt8) : Bool := b == 34 || b == 39
+
+/-- what follows the attribute name: `\s*=\s*["'](\d+)["']` (the two quote characters need not be
+the same; `=` and the quotes are not white space and a quote is not a digit, so each run is
+maximal) -/
+def idTail (r0 : Bytes) : Option Nat :=
+  match r0.dropWhile isWsB with
+  | e :: r1 =>
+    if e == EQ then
+      match r1.dropWhile isWsB with
+      | q :: rest =>
+        if isQuoteB q then
+          match rest.dropWhile isDigit with
+          | q2 :: _ =>
+            if isQuoteB q2 && !(rest.takeWhile isDigit).isEmpty then
+              some (atoiClamp (rest.takeWhile isDigit))
+            else none
+          | [] => none
+        else none
+      | [] => none
+    else none
+  | [] => none
 
 /-- the pattern matches starting exactly here -/
 def idHere (b : Bytes) : Option Nat :=
   match dropFold midPrefix b with
   | none => none
-  | some rest =>
-    match rest.dropWhile isDigit with
-    | q :: _ =>
-      if q == QUOTE && !(rest.takeWhile isDigit).isEmpty then some (atoiClamp (rest.takeWhile isDigit))
-      else none
-    | [] => none
+  | some r0 => idTail r0
 
 /-- `getID(patterns.messageID.FindSubmatch(b))` with "no match" kept apart from id 0 -/
 def firstId : Bytes → Option Nat
